@@ -8,3 +8,7 @@ import GontainerModel.Props.C18
 #print axioms GM.C18.linker_v_stripped
 #print axioms GM.C18.linker_gate
 #print axioms GM.C18.linker_non_semver
+#print axioms GM.C18.linker_version_alone
+#print axioms GM.C18.linker_version_default
+#print axioms GM.C18.buildInfo_starts_with_version
+#print axioms GM.C18.buildInfo_plain
